@@ -79,6 +79,7 @@ SPECS["C02"] = dict(
     design_ref="5/C02",
     rule="TODO",
     jobs=[
+        plain("TestC02RegressAckedHeadWedge", sq=1, st=1),
         plain("TestC02CoreExhaustive", sq=4, st=16, env={"C02_K": {Q: 6, T: 8}, "C02_NCFG": {Q: 6, T: 12}}),
         rapid("TestC02CoreSampled", 500, 15000, sq=4, st=16),
         rapid("TestC02Session", 150, 3000, sq=4, st=16),
@@ -94,6 +95,7 @@ SPECS["C04"] = dict(
     design_ref="5/C04",
     rule="TODO",
     jobs=[
+        plain("TestC04RegressAckOnlyAdmission", sq=1, st=1),
         rapid("TestC04Core", 500, 15000, sq=4, st=16),
         rapid("TestC04Hostile", 6000, 300000, sq=2, st=16),
         plain("TestC04KnownCwndReopen", sq=1, st=1),
@@ -125,6 +127,7 @@ SPECS["C10"] = dict(
     design_ref="5/C10",
     rule="TODO",
     jobs=[
+        plain("TestC10RegressRawSetMtu", sq=1, st=1),
         rapid("TestC10Core", 1500, 40000, sq=4, st=16),
         rapid("TestC10Session", 300, 9000, sq=4, st=16),
         plain("TestC10KnownParityAfterShrink", sq=1, st=1),
@@ -171,6 +174,8 @@ SPECS["C13"] = dict(
     design_ref="5/C13",
     rule="TODO",
     jobs=[
+        plain("TestC13RegressSecondReader", sq=1, st=1),
+        plain("TestC13RegressDeadlineWhileBlocked", sq=1, st=1),
         rapid("TestC13Session", 700, 20000, sq=4, st=16, steps=60),
         rapid("TestC13Accept", 500, 10000, sq=2, st=8, steps=40),
         plain("TestC13KnownDeadlineOneWaiter", sq=1, st=1),
@@ -250,6 +255,7 @@ SPECS["C05"] = dict(
     design_ref="5/C05",
     rule="TODO",
     jobs=[
+        plain("TestC05RegressOversizePush", sq=1, st=1),
         rapid("TestC05Core", 4000, 150000, sq=2, st=16),
         rapid("TestC05FECDecoder", 2000, 60000, sq=1, st=8),
         rapid("TestC05Session", 350, 10000, sq=4, st=16),
@@ -281,6 +287,7 @@ SPECS["C15"] = dict(
     design_ref="5/C15",
     rule="TODO",
     jobs=[
+        plain("TestC15RegressUnacceptedSessions", sq=1, st=1),
         rapid("TestC15Close", 350, 10000, sq=4, st=16),
         rapid("TestC15Pool", 250, 8000, sq=4, st=16),
         rapid("TestC15PoolAutoTune", 600, 20000, sq=2, st=8),
